@@ -87,20 +87,34 @@ Proof.
   repeat split; apply fixed_accurate; assumption.
 Qed.
 
-(* Atoms are written in order and none is lost or duplicated: reading the written block gives the
-   same list with every coordinate rounded to the printed decimals — for any atom list (induction). *)
+(* Atoms are written in order and none is lost or duplicated.  Tied to the code through two GENERATED facts: the
+   line template (lines) and the shape of the loop around it (coord_loops: `for atom in <atoms>`, binding
+   `x, y, z = atom.coord`, no continue/break/return — a slice, reversed(...), a swapped binding or a unit
+   conversion of atom.coord changes the generated row and this theorem no longer builds).  For such a loop the
+   written block, read by the program's documented reader, is the same list with every coordinate rounded to the
+   printed decimals — for any atom list (induction).  NOT covered here (correspondence only): that the list the
+   loop runs over IS the species' atom list (MOPAC passes an interpolated copy; xTB adds explicit solvent). *)
 Theorem atoms_in_order :
-  forall p k tpl, In (p, k, tpl) lines -> (k = LCoord \/ k = LCoordFixed) ->
+  (forall p l, In (p, l) coord_loops -> loop_ok l = true) /\
+  forallb (fun p => Nat.eqb (List.length (filter (fun r => program_eqb p (fst r)) coord_loops)) 1)
+          [ORCA; G09; G16; NWChem; QChem; MOPAC; XYZ] = true /\
+  forall p l k tpl, In (p, l) coord_loops -> In (p, k, tpl) lines -> (k = LCoord \/ k = LCoordFixed) ->
   forall atoms, Forall (fun a => label_ok sep_blank_only (a_label a)) atoms ->
-  read_atoms p k (write_atoms tpl atoms) = Some (map (round_atom tpl) atoms) /\
-  List.length (write_atoms tpl atoms) = List.length atoms.
+  exists ls, write_atoms_by l tpl atoms = Some ls /\
+             read_atoms p k ls = Some (map (round_atom tpl) atoms) /\
+             List.length ls = List.length atoms.
 Proof.
-  intros p k tpl Hin Hk atoms Hall.
+  assert (HL : forall p l, In (p, l) coord_loops -> loop_ok l = true).
+  { intros p l Hin. pose proof all_loops_ok as A. rewrite forallb_forall in A. exact (A _ Hin). }
+  split; [exact HL|]. split; [exact loops_cover|].
+  intros p l k tpl Hl Hin Hk atoms Hall.
   assert (Hc : covered k = true) by (destruct Hk as [->| ->]; reflexivity).
   pose proof (line_in_ok _ _ _ Hin Hc) as Hok.
   destruct (line_ok_layout _ _ _ Hok) as [sc [ex Hex]].
-  destruct (coord_layout_fields _ _ _ _ Hk Hex) as [-> [Hl [Hx [Hy Hz]]]].
-  split; [exact (read_atoms_write p k tpl SBlank ex Hok Hex Hl Hx Hy Hz atoms Hall)|].
+  destruct (coord_layout_fields _ _ _ _ Hk Hex) as [-> [Hlb [Hx [Hy Hz]]]].
+  exists (write_atoms tpl atoms). unfold write_atoms_by. rewrite (HL _ _ Hl).
+  split; [reflexivity|].
+  split; [exact (read_atoms_write p k tpl SBlank ex Hok Hex Hlb Hx Hy Hz atoms Hall)|].
   unfold write_atoms. apply map_length.
 Qed.
 
@@ -143,12 +157,16 @@ Proof.
       split; [exact R|]. exists sp, off. rewrite <- (Hbase FJ ltac:(auto)). auto.
 Qed.
 
-(* Charge and multiplicity are present and readable: on every generated charge / multiplicity line
-   the documented reader returns exactly the species' charge and multiplicity (NWChem's `nopen`
-   carries mult-1 and is read back as mult); and every program with a place for it has such a line
-   (ORCA, Gaussian 09/16, NWChem, Q-Chem, MOPAC for the charge; all but MOPAC for the multiplicity —
-   MOPAC's spin keywords and xTB's command-line flags are checked by correspondence). *)
-Theorem charge_mult_present :
+(* PARTIAL ("charge and multiplicity present").  Proved: on every generated charge / multiplicity line the
+   documented reader returns exactly the species' charge and multiplicity (NWChem's `nopen` carries mult-1 and is
+   read back as mult), for all integers.  The last two conjuncts only say that each listed program's SOURCE
+   contains a print statement for the field (ORCA, Gaussian 09/16, NWChem, Q-Chem, MOPAC charge; all but MOPAC
+   multiplicity).  MISSING: that the line is actually emitted for every keyword set — the control flow around the
+   print sites is not modelled.  It is in fact FALSE for NWChem: `mult` is inserted only into a dft block and
+   `nopen` only for scf tasks, so an mp2/ccsd task of a triplet gets no multiplicity at all (finding
+   nwchem.generate_input|mult-missing-without-dft-or-scf-task, implementation oracle in harness/c17.py).
+   MOPAC's spin keywords and xTB's command-line flags are checked by correspondence only. *)
+Theorem charge_mult_lines_read_back_partial :
   (forall p k tpl, In (p, k, tpl) lines ->
      (k = LChargeMult \/ k = LCharge \/ k = LMult \/ k = LNopen) ->
      exists sc ex, expected_layout p k = Some (sc, ex) /\
@@ -168,30 +186,30 @@ Proof.
   - exact (proj1 (read_int_render p k tpl sc ex e FMult Hok Hex He Hf ltac:(auto 6))).
 Qed.
 
-(* Point charges: position within 1e-5 Angstrom, charge within half a unit of its last printed decimal. *)
+(* Point charges: position within 1e-5 Angstrom and charge within 1e-5 e of the exact values (every generated
+   point-charge spec is fixed point with at least 5 decimals: swept by line_ok / spec_ok). *)
 Theorem point_charges_readable :
   forall p tpl, In (p, LPointCharge, tpl) lines ->
   exists sc ex, expected_layout p LPointCharge = Some (sc, ex) /\
   forall e, env_ok (sepf sc) e ->
-    (forall f, f = FX \/ f = FY \/ f = FZ ->
+    forall f, f = FX \/ f = FY \/ f = FZ \/ f = FQ ->
        exists v, read_q p LPointCharge f (render e tpl) = Some v /\
-                 (Qabs (v - qval e f) <= 1 # 100000)%Q) /\
-    exists d v, read_q p LPointCharge FQ (render e tpl) = Some v /\
-                (Qabs (v - e_q e) <= 1 # (2 * Z.to_pos (pow10 (S d))))%Q.
+                 (Qabs (v - qval e f) <= 1 # 100000)%Q.
 Proof.
   intros p tpl Hin. pose proof (line_in_ok _ _ _ Hin eq_refl) as Hok.
   destruct (line_ok_layout _ _ _ Hok) as [sc [ex Hex]]. exists sc, ex. split; [exact Hex|].
   destruct (pc_layout_fields _ _ _ Hex) as [Hq [Hx [Hy Hz]]].
-  intros e He. split.
-  - intros f Hf. assert (Hfin : In (EF f) ex) by (destruct Hf as [->|[->| ->]]; assumption).
-    destruct (read_q_fixed p _ tpl sc ex e f Hok Hex He Hfin Hf) as [R D].
-    eexists. split; [exact R|]. apply fixed_accurate. exact D.
-  - destruct (read_tok_render p _ tpl sc ex e FQ Hok Hex He Hq) as [sp [H1 [H2 _]]].
-    cbn [spec_ok] in H2. destruct (s_kind sp) as [d| | |] eqn:K; try discriminate.
-    apply Nat.leb_le in H2. destruct d as [|d]; [lia|].
-    exists d, (roundq (S d) (qval e FQ)). split.
-    + exact (read_q_kfixed p _ tpl sc ex e FQ sp d Hok Hex He Hq H1 K).
-    + apply roundq_close.
+  intros e He f Hf. destruct Hf as [Hf|[Hf|[Hf|Hf]]].
+  1-3: assert (Hfin : In (EF f) ex) by (subst f; assumption);
+       destruct (read_q_fixed p _ tpl sc ex e f Hok Hex He Hfin ltac:(subst f; auto)) as [R D];
+       eexists; (split; [exact R|]); apply fixed_accurate; exact D.
+  subst f.
+  destruct (read_tok_render p _ tpl sc ex e FQ Hok Hex He Hq) as [sp [H1 [H2 _]]].
+  cbn [spec_ok] in H2. destruct (s_kind sp) as [d| | |] eqn:K; try discriminate.
+  apply Nat.leb_le in H2. destruct d as [|d]; [lia|].
+  exists (roundq (S d) (qval e FQ)). split.
+  - exact (read_q_kfixed p _ tpl sc ex e FQ sp d Hok Hex He Hq H1 K).
+  - apply fixed_accurate. exact H2.
 Qed.
 
 (* PARTIAL: constrained distance VALUES.  Where a wrapper prints the distance with a fixed-point
